@@ -47,24 +47,33 @@ inline void op_view(vh::Rng & rng, const model::Node & m)
     if (!std::is_trivially_copyable_v<V>) vh::viol("view-not-trivially-copyable", Z::type_string());
     if (sizeof(V) > 256) vh::viol("view-larger-than-256-bytes", Z::type_string());
     V v(f);
-    // a bitwise copy of the view (what a kernel launch does) must answer like the original
+    // copies of a view are independent values: a bitwise copy (what a kernel launch does), a copy-constructed and a
+    // copy-assigned one must answer like a fresh view AFTER the view they were made from has been zeroed and freed
+    V * orig = new V(f);
     alignas(V) unsigned char raw[sizeof(V)];
-    std::memcpy(raw, &v, sizeof(V));
+    std::memcpy(raw, orig, sizeof(V));
     const V & cpy = *reinterpret_cast<const V *>(raw);
+    V constructed(*orig);
+    V assigned(f);
+    assigned = *orig;
+    std::memset(static_cast<void *>(orig), 0, sizeof(V));
+    delete orig;
     for (int q = 0; q < 60; ++q) {
         model::Vec mc;
         auto c = zoo::propose<F>(rng, mc);
         model::Result r = m.at(mc);
         if (!r.ok) continue;
-        typename F::output_t a = v.at(c), b = cpy.at(c);
+        typename F::output_t a = v.at(c), b = cpy.at(c), d = constructed.at(c), e = assigned.at(c);
         vh::ev();
-        model::Vec ga(zoo::traits<F>::M), gb(zoo::traits<F>::M);
+        model::Vec ga(zoo::traits<F>::M), gb(zoo::traits<F>::M), gd(zoo::traits<F>::M), ge(zoo::traits<F>::M);
         for (std::size_t j = 0; j < zoo::traits<F>::M; ++j) {
             ga[j] = (model::Q)a[j];
             gb[j] = (model::Q)b[j];
+            gd[j] = (model::Q)d[j];
+            ge[j] = (model::Q)e[j];
         }
-        if (!r.admits(ga) || !r.admits(gb)) {
-            vh::viol("api:view", std::string(Z::type_string()) + " c=" + zoo::show_q(mc));
+        if (!r.admits(ga) || !r.admits(gb) || !r.admits(gd) || !r.admits(ge)) {
+            vh::viol("api:view", std::string(Z::type_string()) + " c=" + zoo::show_q(mc) + (r.admits(ga) ? " (a copy of a view whose original is gone answers differently)" : ""));
             return;
         }
     }
